@@ -16,7 +16,8 @@ Open Scope Z_scope.
 
 
 class Oracle:
-    def __init__(self, answers):
+    def __init__(self, answers, T=1000):
+        self.T = T
         self.answers = list(answers)
         self.i = 0
         self.n_ok = 0
@@ -25,12 +26,13 @@ class Oracle:
         ok = self.answers[self.i] if self.i < len(self.answers) else True
         self.i += 1
 
-        # the threshold is 1000 bytes in every spelling; "<=" counts as crossed
+        # the threshold is T bytes (1000 in most spellings); "<=" counts as crossed
+        T = self.T
         self.n_ok += 1 if ok else 0
         pick = (self.i * 7 + len(self.answers)) % 3
 
         class M:
-            available = ((1001, 10 ** 12, 5000)[pick]) if ok else ((1000, 999, 0)[pick])
+            available = ((T + 1, 10 ** 12, 5 * T)[pick]) if ok else ((T, T - 1, 0)[pick])
             total = 2000
         return M
 
@@ -66,7 +68,8 @@ def run_history(ld, n, limited, mem, ops, keyed):
         psutil.virtual_memory = lambda: AtConstruction
         try:
             # the same threshold (1000 bytes) spelled as a number of bytes, as a share of the total memory, and as a size string
-            spelling = [1000, '50%', '1000 B', ' 50 %', '1000'][(n + len(ops) + len(mem)) % 5]
+            # (size strings are binary: '1 KB' = '1 KiB' = 1024 bytes)
+            spelling, T = [(1000, 1000), ('50%', 1000), ('1000 B', 1000), (' 50 %', 1000), ('1000', 1000), ('1 KB', 1024), ('1 KiB', 1024), ('2 KB', 2048)][(n + len(ops) + len(mem)) % 8]
             if (n + len(ops)) % 4 == 1:
                 root = ld.core.CacheDataset(up, spelling if limited else None, immutable_warranty='copy')
             elif not limited:
@@ -78,7 +81,7 @@ def run_history(ld, n, limited, mem, ops, keyed):
         finally:
             psutil.virtual_memory = old
         handles = [root]
-        oracle = Oracle(mem)
+        oracle = Oracle(mem, T if limited else 1000)
         psutil.virtual_memory = oracle
         outs = []
         iters, ipos = {}, {}
